@@ -7,6 +7,7 @@ import (
 	"testing"
 
 	"github.com/alttpo/snes/emulator"
+	"github.com/alttpo/snes/emulator/bus"
 	"github.com/alttpo/snes/mapping/lorom"
 
 	"verif/harness/rig"
@@ -50,8 +51,15 @@ func c11FillCopy(seed uint32) *c11Sys {
 	parent := c11Fill(seed ^ 0x77777777)
 	s := &emulator.System{}
 	*s = *parent.s
-	if err := s.CreateEmulator(); err != nil {
-		panic(err)
+	// the map is (re)built on request, any number of times: 140 more times on this System after its bus was cleared once (more than
+	// 2^16 Attach calls on one bus in total)
+	for i := 0; i < 141; i++ {
+		if i == 1 {
+			s.Bus = bus.Bus{}
+		}
+		if err := s.CreateEmulator(); err != nil {
+			panic(err)
+		}
 	}
 	for i := range s.ROM {
 		s.ROM[i] = rig.Mix(seed^0x524F4D, uint32(i))
@@ -323,7 +331,7 @@ func TestC11(t *testing.T) {
 			for _, seed := range seeds {
 				q := c11Fill(seed)
 				// a second, differently filled System is used between the accesses: each System answers from its own arrays;
-				// it was made by copying a third System and calling CreateEmulator on the copy
+				// it was made by copying a third System and calling CreateEmulator on the copy 141 times (the bus was cleared after the first)
 				q2 := c11FillCopy(seed ^ 0x5A5A5A5A)
 				var inT, outAccepted int64
 				failed := false
